@@ -104,3 +104,20 @@ def gen_units():
            'def filUnits : List (List Nat × Rat) :=\n  ' + table(fils) + '\n'
            'end PlasVerif.Generated.Units\n')
     return 'PlasVerif/Generated/Units.lean', src, mode
+
+
+def gen_ligatures():
+    """`TeXDocument.defaultCharsubs` (source, replacement) as code points, in list order (Generated/Ligatures.lean)"""
+    from plasTeX import TeXDocument
+    subs = list(TeXDocument.defaultCharsubs)
+    rows = []
+    for src, dest in subs:
+        if not (isinstance(src, str) and isinstance(dest, str) and src):
+            raise ValueError('charsub entry %r' % ((src, dest),))
+        rows.append('([%s], [%s])' % (', '.join(str(ord(c)) for c in src), ', '.join(str(ord(c)) for c in dest)))
+    src_text = (extract.HEADER % ('plasTeX/__init__.py (TeXDocument.defaultCharsubs)', 'exact') +
+                'namespace PlasVerif.Generated.Ligatures\n'
+                '/-- the text ligatures applied to an argument read in text mode: (source, replacement), in list order -/\n'
+                'def charsubs : List (List Nat × List Nat) :=\n  [' + ',\n   '.join(rows) + ']\n'
+                'end PlasVerif.Generated.Ligatures\n')
+    return 'PlasVerif/Generated/Ligatures.lean', src_text, 'exact'
